@@ -605,7 +605,7 @@ func TestVerif_C03(t *testing.T) {
 						for _, x := range []*big.Int{bi(0), c03N, new(big.Int).Add(c03N, bi(1)), new(big.Int).Sub(c03Two56, bi(1)), bi(-1), c03Two56, new(big.Int).Neg(rr)} {
 							muts = append(muts, mut{"r=" + x.Text(16), v, x, ss, nil})
 						}
-						for _, x := range []*big.Int{bi(0), c03N, new(big.Int).Add(c03N, bi(1)), new(big.Int).Sub(c03Two56, bi(1)), bi(-1), c03Two56, new(big.Int).Add(c03HalfN, bi(1)), new(big.Int).Neg(ss)} {
+						for _, x := range []*big.Int{bi(0), c03N, new(big.Int).Add(c03N, bi(1)), new(big.Int).Sub(c03Two56, bi(1)), bi(-1), c03Two56, c03HalfN, new(big.Int).Add(c03HalfN, bi(1)), new(big.Int).Neg(ss)} {
 							muts = append(muts, mut{"s=" + x.Text(16), v, rr, x, nil})
 						}
 						flipped := new(big.Int).Xor(v, bi(1))
@@ -696,8 +696,8 @@ func TestVerif_C03(t *testing.T) {
 			name string
 			s    Signer
 		}{{"NewEIP155Signer(0)", NewEIP155Signer(new(big.Int))}, {"NewEIP155Signer(nil)", NewEIP155Signer(nil)}} {
-			for bi, f := range bodies[:2] {
-				for ki, key := range keys {
+			for bi, f := range bodies[:1] {
+				for ki, key := range keys[:2] {
 					r.Case(c03Case{Kind: "sign-chain-zero", Signer: zc.name, Chain: "0", Tx: fmt.Sprintf("legacy/%d", bi), Key: ki}, func() error {
 						tx, err := SignTx(NewTx(f.txdata(nil)), zc.s, key)
 						if err != nil {
